@@ -153,6 +153,20 @@ pub fn generate(seed: u64, tier: &str, sink: &mut Sink) {
             }
         }
         let settings = attohttpc::ProxySettings::from_env();
+        // a request / a session created now, without proxy settings of its own, works with the environment as it is
+        // NOW (seed C11-seed8: settings read once per process): its settings are what from_env() gives here
+        let stale: Option<String> = {
+            let direct = format!("{:?}", settings);
+            let of_request = attohttpc::get("http://probe.test/").verif_settings().proxy;
+            let of_session = attohttpc::Session::new().verif_settings().proxy;
+            if of_request != direct {
+                Some(format!("a request created in this environment has {} where from_env() gives {}", of_request, direct))
+            } else if of_session != direct {
+                Some(format!("a session created in this environment has {} where from_env() gives {}", of_session, direct))
+            } else {
+                None
+            }
+        };
         clear_env();
         let choices: Vec<Option<Url>> = probes.iter().map(|p| settings.for_url(p).cloned()).collect();
         let line = format!("choices={}", choices.iter().map(|c| show(c.as_ref())).collect::<Vec<_>>().join(","));
@@ -187,6 +201,9 @@ pub fn generate(seed: u64, tier: &str, sink: &mut Sink) {
             _ => vec![],
         };
         let o: Result<(), (String, String)> = (|| {
+            if let Some(why) = &stale {
+                return Err(("env-stale-defaults".to_string(), format!("env {:?}: {}", VARS.iter().zip(vals.iter()).filter(|(_, v)| v.is_some()).map(|(k, v)| format!("{}={:?}", k, v.unwrap())).collect::<Vec<_>>(), why)));
+            }
             for (p, got) in probes.iter().zip(choices.iter()) {
                 let scheme_specific = if p.scheme() == "http" { &http_p } else { &https_p };
                 let open = open_a || open_np || if p.scheme() == "http" { open_h } else { open_s };
